@@ -30,6 +30,7 @@ type Engine struct {
 	Tier      string
 	Seed      int
 	funcIdx   map[string]int
+	SkipRace  map[string]bool // obligations recorded as open known findings: not raced individually
 }
 
 // overlayInstances is a synthetic file forcing generic instantiations (DESIGN §3.1).
